@@ -9,17 +9,17 @@
 (* - where StringOps defines the value - the returned bytes are the        *)
 (* reference result.                                                       *)
 (***************************************************************************)
-EXTENDS StringPool, StringOps, TraceLib, Json, IOUtils, TLC
+EXTENDS StringPool, StringOps, Unicode, TraceLib, Json, IOUtils, TLC
 
 TraceLog == ndJsonDeserialize(IOEnv.TRACE)
 OutFile  == IOEnv.OUT
 NSlots   == 4
 
-VARIABLES l, pool, skipping, hadFault, book, nsteps, nfault, nthrow, nconst, done
-vars == <<l, pool, skipping, hadFault, book, nsteps, nfault, nthrow, nconst, done>>
+VARIABLES l, pool, wbits, skipping, hadFault, book, nsteps, nfault, nthrow, nconst, done
+vars == <<l, pool, wbits, skipping, hadFault, book, nsteps, nfault, nthrow, nconst, done>>
 
 AllDead == [s \in 1..NSlots |-> Dead]
-Init == /\ l = 1 /\ pool = AllDead /\ skipping = TRUE /\ hadFault = FALSE /\ book = Book0
+Init == /\ l = 1 /\ pool = AllDead /\ wbits = 32 /\ skipping = TRUE /\ hadFault = FALSE /\ book = Book0
         /\ nsteps = 0 /\ nfault = 0 /\ nthrow = 0 /\ nconst = 0 /\ done = FALSE
 Ev == TraceLog[l]
 ToSet(q) == {q[k] : k \in 1..Len(q)}
@@ -77,10 +77,15 @@ KeptValue(op, src, exp) ==
       [] op = "tokenize" -> IF exp = <<>> THEN <<>> ELSE exp[Len(exp)]
       [] OTHER -> exp[1]
 
+AsciiOnly(v) == \A k \in 1..Len(v) : v[k] < 128
+WideEncOf(op) == CASE op = "to_utf16" -> "utf16" [] op = "to_utf32" -> "utf32" [] op = "to_latin_1" -> "latin1"
+                   [] OTHER -> (IF wbits = 32 THEN "utf32" ELSE "utf16")
+Transcoding == {"to_utf16", "to_utf32", "to_wchar", "to_latin_1"}
 ResultsOk(op, ev, exp) ==
     /\ \A k \in 1..Len(ev.res) : ev.res[k].own = 1 /\ ev.res[k].z = 0
-    /\ IF ~Defined(op)
-       THEN Len(ev.res) = 1 /\ ev.res[1].n = Len(pool[ev.a].val)      \* ASCII text: one unit per byte in every width
+    /\ IF op \in Transcoding /\ (~Defined(op) \/ ~AsciiOnly(pool[ev.a].val))
+       THEN \* a transcoding result: its size is the size of the reference transcoding (its units are C01's business)
+            Len(ev.res) = 1 /\ ev.res[1].n = Len(RefOut("utf8", WideEncOf(op), pool[ev.a].val, TRUE))
        ELSE \/ ev.b # 0 /\ op \notin {"split", "tokenize", "to_utf8", "to_std", "to_latin_1"}   \* kept directly: it is in the pool
             \/ /\ Len(ev.res) = Len(exp)
                /\ \A k \in 1..Len(exp) : ev.res[k].u = exp[k] /\ ev.res[k].n = Len(exp[k])
@@ -106,7 +111,11 @@ StepOk(ev, post) ==
              exp == ExpVal(op, src, ev)
          IN /\ IsLive(pool, ev.a)
             /\ ResultsOk(op, ev, exp)
-            /\ ConstOpOk(pool, post, ev.b, IF ev.b = 0 THEN <<>> ELSE KeptValue(op, src, exp))
+            /\ ConstOpOk(pool, post, ev.b, IF ev.b = 0 THEN <<>>
+                                           ELSE IF op \in Transcoding /\ ~AsciiOnly(src) THEN post[ev.b].val   \* (value: C01)
+                                           ELSE KeptValue(op, src, exp))
+    ELSE IF ev.e = "set:substbad"        \* malformed bytes under substitute_invalid: the repaired text (Unicode!RefOut)
+         THEN IsLive(pool, ev.a) /\ WriteOk(pool, post, ev.a, RefOut("utf8", "utf8", ev.data, TRUE))
     ELSE IF IsSet(ev) THEN IsLive(pool, ev.a) /\ WriteOk(pool, post, ev.a, ev.data)
     ELSE IF IsSelfSet(ev) THEN IsLive(pool, ev.a) /\ WriteOk(pool, post, ev.a, SelfValue(ev, pool[ev.a].val))
     ELSE CASE ev.e = "construct" -> ~IsLive(pool, ev.a) /\ WriteOk(pool, post, ev.a, ev.data)
@@ -128,8 +137,16 @@ TargetOf(ev) == IF IsConst(ev) THEN 0 ELSE ev.a
 Accept(ev) ==
     LET post == PostPool(ev) IN
     /\ ObsOk(ev)
-    /\ CASE ev.exc = "none" -> ~IsThrowOp(ev) /\ StepOk(ev, post)
-         [] ev.exc = "unicode_error" -> IsThrowOp(ev) /\ ThrowOk(pool, post) /\ ev.argkept # 0
+    /\ CASE ev.exc = "none" -> /\ ~IsThrowOp(ev) /\ StepOk(ev, post)
+                               /\ ev.argmode = "lvalue" => ev.argkept = 1        \* a buffer passed by reference is only read
+         [] ev.exc = "unicode_error" ->
+               \/ IsThrowOp(ev) /\ ThrowOk(pool, post) /\ ev.argkept # 0
+               \* a slice of the string's own bytes that cuts a multi-byte character is malformed: refused, nothing changes
+               \/ IsSelfSet(ev) /\ IsLive(pool, ev.a) /\ ThrowOk(pool, post)
+                  /\ AnyBad(Items("utf8", SelfValue(ev, pool[ev.a].val)))
+               \* once the pool holds non-ASCII bytes (repaired text, slices through a multi-byte character), an operation
+               \* that validates may refuse them; what matters here is that the refusal changed nothing
+               \/ ThrowOk(pool, post) /\ \E q \in LiveSlots(pool) : ~AsciiOnly(pool[q].val)
          [] ev.exc = "bad_alloc" -> ev.fault > 0 /\ FaultOk(pool, post, TargetOf(ev))
          [] OTHER -> FALSE
 
@@ -141,9 +158,9 @@ PropOf(ev) == IF "fault" \in DOMAIN ev /\ ev.fault > 0 THEN <<"C19">>
               ELSE <<"C04">>
 Rej(ev, what) == [line |-> l, i |-> ev.i, k |-> 0, what |-> what, cls |-> ev.e, props |-> PropOf(ev), kf |-> "none"]
 
-TPlatform == Ev.e = "Platform" /\ UNCHANGED <<pool, skipping, hadFault, book, nsteps, nfault, nthrow, nconst>>
+TPlatform == Ev.e = "Platform" /\ wbits' = Ev.wchar_bits /\ UNCHANGED <<pool, skipping, hadFault, book, nsteps, nfault, nthrow, nconst>>
 TReset == /\ Ev.e = "reset" /\ pool' = AllDead /\ skipping' = FALSE /\ hadFault' = FALSE
-          /\ UNCHANGED <<book, nsteps, nfault, nthrow, nconst>>
+          /\ UNCHANGED <<wbits, book, nsteps, nfault, nthrow, nconst>>
 TEnd ==
     /\ Ev.e = "end"
     /\ IF skipping THEN UNCHANGED book
@@ -151,7 +168,7 @@ TEnd ==
        ELSE book' = BookAdd(book, << [line |-> l, i |-> Ev.i, k |-> 0, what |-> "leak at end",
                                       props |-> IF hadFault THEN <<"C19">> ELSE <<"C04">>, kf |-> "none"] >>)
     /\ pool' = AllDead /\ skipping' = TRUE
-    /\ UNCHANGED <<hadFault, nsteps, nfault, nthrow, nconst>>
+    /\ UNCHANGED <<wbits, hadFault, nsteps, nfault, nthrow, nconst>>
 TAbnormal ==
     /\ Ev.e = "Abnormal"
     /\ book' = BookAdd(book, << [line |-> l, i |-> Ev.i, k |-> 0, what |-> "abnormal",
@@ -160,9 +177,10 @@ TAbnormal ==
                                            ELSE <<"C04">>,
                                  kf |-> "none"] >>)
     /\ skipping' = TRUE
-    /\ UNCHANGED <<pool, hadFault, nsteps, nfault, nthrow, nconst>>
+    /\ UNCHANGED <<pool, wbits, hadFault, nsteps, nfault, nthrow, nconst>>
 TOp ==
     /\ Ev.e \notin {"Platform", "reset", "end", "Abnormal"}
+    /\ UNCHANGED wbits
     /\ IF skipping THEN UNCHANGED <<pool, skipping, book, nsteps, nfault, nthrow, nconst, hadFault>>
        ELSE /\ nsteps' = nsteps + 1
             /\ nfault' = nfault + (IF Ev.exc = "bad_alloc" THEN 1 ELSE 0)
@@ -183,7 +201,7 @@ TFinish ==
                                     n_decided |-> nsteps, n_fault_steps |-> nfault, n_throwing_steps |-> nthrow,
                                     n_const_ops |-> nconst, rej |-> book.rej] >>)
     /\ done' = TRUE
-    /\ UNCHANGED <<l, pool, skipping, hadFault, book, nsteps, nfault, nthrow, nconst>>
+    /\ UNCHANGED <<l, pool, wbits, skipping, hadFault, book, nsteps, nfault, nthrow, nconst>>
 Next == TStep \/ TFinish
 Spec == Init /\ [][Next]_vars
 Accepted == TLCGet("stats").diameter = Len(TraceLog) + 2
